@@ -224,12 +224,12 @@ def SHAKE128(M,d):
     h = Keccak(b=1600,c=256,len=d)
     h.duplexing=True
     L = len(M)*8
-    M += b'\x0f'
+    M = M+b'\x0f'
     return h(M,bitlen=L+4)
 
 def SHAKE256(M,d):
     h = Keccak(b=1600,c=512,len=d)
     h.duplexing=True
     L = len(M)*8
-    M += b'\x0f'
+    M = M+b'\x0f'
     return h(M,bitlen=L+4)
